@@ -22,6 +22,7 @@ import JoinModel.Lemmas.GenFacts
 import JoinModel.Print
 import JoinModel.AsyncSpec
 import JoinModel.Props.Common
+import JoinModel.AsyncTry
 namespace JoinModel.Props.C09
 open JoinModel
 
@@ -91,6 +92,12 @@ example :
                                               ⟨.map, true, .none, [⟨.expr, [.ident "f"]⟩]⟩]⟩,
                                      ⟨none, [⟨.initial, false, .none, [⟨.expr, [.ident "b"]⟩]⟩]⟩] }
     (gen p ⟨true, false, false⟩).toOption.isSome = true := by decide
+
+/-- `try_join_async!` / `try_join_async_spawn!` (and aliases): under the canonical schedule the generated code is the
+    async-try reference semantics (`specRunAT`: a step stops at its first failing chain). -/
+theorem async_try_canonical (σ : World) (parent : Option String) (p : Input) (kind : Kind) (code : Code)
+    (hs : SupportedAT p kind) (hgen : gen p kind = .ok code) :
+    evalCode σ parent code = specRunAT σ parent p kind := async_try_refines σ parent p kind code hs hgen
 
 /-! ### 3. every schedule -/
 
